@@ -284,7 +284,7 @@ def m_from_residual(ex, st, args, dty, canon):
     d = find_from(ex, F, E)
     if d is None:
         st.notes.append(('from-havoc', F, E))
-        return err(ex.mk_sym(F, st.fresh('from')))
+        return err(ex.mk_sym(F, 'hv!' + st.fresh('from')))
     caller = st.frames[-1]
     term = caller.fn.blocks[caller.bb].term
     dcell, dpath, _ = ex.resolve(st, caller, term.place)
@@ -320,6 +320,17 @@ def find_from(ex, F, E):
     return None
 
 
+@pattern(r'^<(i|u)(8|16|32|64|128|size) as From<((i|u)(8|16|32|64|128|size)|bool|char)>>::from$|^<((i|u)(8|16|32|64|128|size)|bool|char) as Into<(i|u)(8|16|32|64|128|size)>>::into$')
+def m_int_from(ex, st, args, dty, canon):
+    """From/Into between primitive integers exist only where lossless: the value is kept"""
+    m_ = re.match(r'^<(\w+) as (From|Into)<(\w+)>>', canon[4])
+    target = m_.group(1) if m_.group(2) == 'From' else m_.group(3)
+    a = args[0]
+    if a.ty == 'bool':
+        return Sc(z3.If(a.t, I(1), I(0)), target)
+    return Sc(a.t, target)
+
+
 @pattern(r'^<.* as From<.*>>::from$|^<.* as Into<.*>>::into$')
 def m_from_into(ex, st, args, dty, canon):
     raw = canon[4]
@@ -346,7 +357,7 @@ def m_from_into(ex, st, args, dty, canon):
         return some(args[0])
     st.notes.append(('from-havoc', F, E))
     ex.havoc_log['from:%s<-%s' % (simple(F or '?'), simple(E or '?'))] = ex.havoc_log.get('from:%s<-%s' % (simple(F or '?'), simple(E or '?')), 0) + 1
-    return ex.mk_sym(dty, st.fresh('from'))
+    return ex.mk_sym(dty, 'hv!' + st.fresh('from'))      # unknown conversion: tainted like any havoc
 
 
 # ------------------------------------------------------------------ structural equality
@@ -427,6 +438,17 @@ def m_is_success(ex, st, args, dty, canon):
     s = deref_all(ex, st, args[0])
     code = ex.child(st, s, 0, 'u16')
     return Sc(z3.And(code.t >= 200, code.t < 300), 'bool')
+
+
+@pattern(r'^(http::)?(status::)?StatusCode::(is_informational|is_redirection|is_client_error|is_server_error|as_u16)$')
+def m_status_class(ex, st, args, dty, canon):
+    s_ = deref_all(ex, st, args[0])
+    code = ex.child(st, s_, 0, 'u16').t
+    op = canon[3]
+    if op == 'as_u16':
+        return Sc(code, 'u16')
+    lo = {'is_informational': 100, 'is_redirection': 300, 'is_client_error': 400, 'is_server_error': 500}[op]
+    return Sc(z3.And(code >= lo, code < lo + 100), 'bool')
 
 
 @pattern(r'^(http::)?(header::)?HeaderMap::get::<.*>$|^HeaderMap::get$')
@@ -812,20 +834,40 @@ def m_iter_next(ex, st, args, dty, canon):
     return NOTHING
 
 
-def drain(ex, st, itv, on_item, on_end, acc):
-    """fold over the iterator: on_item(ex, st, acc, item, k) must call k(ex, st, new_acc, stop: bool)"""
+def drain(ex, st, itv, on_item, on_end, acc, back=None):
+    """fold over the iterator: on_item(ex, st, acc, item, k) must call k(ex, st, new_acc, stop: bool).
+    `back`: pointer the iterator was borrowed through (`&mut I`): the advanced iterator is written back, so
+    that what a short-circuiting consumer (find / any / all / position) left unconsumed -- and nothing else --
+    is still there for the next user of the same iterator."""
+    def finish_(ex5, s5, ni, a):
+        if back is not None:
+            ex5.store(s5, back.cell, [(k_, None) for k_ in back.path], ni)
+        return on_end(ex5, s5, a)
+
     def step(ex2, s2, cur, a):
         def c1(ex3, s3, ni, item):
             if item is None:
-                return on_end(ex3, s3, a)
+                return finish_(ex3, s3, ni, a)
 
             def k(ex4, s4, na, stop=False):
                 if stop:
-                    return on_end(ex4, s4, na)
+                    return finish_(ex4, s4, ni, na)
                 return step(ex4, s4, ni, na)
             return on_item(ex3, s3, a, item, k)
         return iter_next(ex2, s2, cur, c1)
     return step(ex, st, itv, acc)
+
+
+def _iter_is_shared(ex, st, p):
+    """an iterator reached through a pointer into a named local may be used again after the call (a temporary
+    adaptor chain `x.iter().any(..)` cannot): only then is exact short-circuiting observable"""
+    cell = p.cell
+    if not (isinstance(cell, tuple) and len(cell) == 2 and isinstance(cell[1], int)):
+        return True
+    for fr in st.frames:
+        if fr.fid == cell[0]:
+            return cell[1] in fr.fn.named
+    return True
 
 
 def _iter_arg(ex, st, v):
@@ -862,15 +904,29 @@ def m_iter_all(ex, st, args, dty, canon):
     itv = deref(ex, st, p) if isinstance(p, Ptr) else p
     clo = args[1]
 
+    borrowed = isinstance(p, Ptr) and isinstance(itv, Obj) and itv.kind == 'iter' and _iter_is_shared(ex, st, p)
+
     def on_item(ex2, s2, acc, item, k):
         def c2(ex3, s3, r):
             b = ex3.as_bool(r)
+            if borrowed:
+                # the iterator lives on after this call: short-circuit exactly as std does
+                bs_ = z3.simplify(b)
+                stop_on = z3.is_false(bs_) if want_all else z3.is_true(bs_)
+                go_on = z3.is_true(bs_) if want_all else z3.is_false(bs_)
+                if stop_on:
+                    return k(ex3, s3, z3.BoolVal(not want_all), True)
+                if go_on:
+                    return k(ex3, s3, acc)
+                cont_c, stop_c = (b, z3.Not(b)) if want_all else (z3.Not(b), b)
+                raise Fork([(stop_c, lambda s: (k(ex3, s, z3.BoolVal(not want_all), True), NOTHING)[1]),
+                            (cont_c, lambda s: (k(ex3, s, acc), NOTHING)[1])])
             return k(ex3, s3, z3.And(acc, b) if want_all else z3.Or(acc, b))
         return call_fnlike(ex2, s2, clo_ref(ex2, s2, clo), [item], c2)
 
     def on_end(ex2, s2, acc):
         return finish(ex2, s2, Sc(z3.simplify(acc), 'bool'))
-    drain(ex, st, itv, on_item, on_end, z3.BoolVal(want_all))
+    drain(ex, st, itv, on_item, on_end, z3.BoolVal(want_all), back=p if borrowed else None)
     return NOTHING
 
 
@@ -896,8 +952,56 @@ def m_iter_find(ex, st, args, dty, canon):
 
     def on_end(ex2, s2, acc):
         return finish(ex2, s2, none() if acc is None else some(acc))
-    drain(ex, st, itv, on_item, on_end, None)
+    drain(ex, st, itv, on_item, on_end, None, back=p if isinstance(p, Ptr) else None)
     return NOTHING
+
+
+@pattern(r'^<.* as Iterator>::position(::<.*>)?$')
+def m_iter_position(ex, st, args, dty, canon):
+    finish = _call_site(ex, st)
+    p = args[0]
+    itv = deref(ex, st, p) if isinstance(p, Ptr) else p
+    clo = args[1]
+
+    def on_item(ex2, s2, acc, item, k):
+        idx, found = acc
+
+        def c2(ex3, s3, r):
+            b = z3.simplify(ex3.as_bool(r))
+            if z3.is_true(b):
+                return k(ex3, s3, (idx, True), True)
+            if z3.is_false(b):
+                return k(ex3, s3, (idx + 1, False))
+            raise Fork([(b, lambda s: (k(ex3, s, (idx, True), True), NOTHING)[1]),
+                        (z3.Not(b), lambda s: (k(ex3, s, (idx + 1, False)), NOTHING)[1])])
+        return call_fnlike(ex2, s2, clo_ref(ex2, s2, clo), [item], c2)
+
+    def on_end(ex2, s2, acc):
+        idx, found = acc
+        return finish(ex2, s2, some(Sc(I(idx), 'usize')) if found else none())
+    drain(ex, st, itv, on_item, on_end, (0, False), back=p if isinstance(p, Ptr) else None)
+    return NOTHING
+
+
+@pattern(r'^<(std::vec::)?Vec<.*> as (std::ops::|core::ops::)?(Index|IndexMut)<usize>>::(index|index_mut)$|^<\[.*\] as (std::ops::|core::ops::)?(Index|IndexMut)<usize>>::(index|index_mut)$')
+def m_vec_index(ex, st, args, dty, canon):
+    p = as_ptr(ex, st, args[0], 'Vec index')
+    v = deref(ex, st, p)
+    n = vec_len(ex, st, v)
+    idx = z3.simplify(args[1].t)
+
+    def oob(s_):
+        s_.status = 'panic'
+        s_.info = 'index out of bounds'
+        return NOTHING
+    if z3.is_int_value(idx):
+        i = idx.as_long()
+        if i >= n:
+            return oob(st)
+        return Ptr(p.cell, p.path + (i,))
+    alts = [(args[1].t == i, (lambda i: (lambda s_: Ptr(p.cell, p.path + (i,))))(i)) for i in range(n)]
+    alts.append((args[1].t >= n, oob))
+    raise Fork(alts)
 
 
 @pattern(r'^<.* as Iterator>::fold(::<.*>)?$')
@@ -1438,9 +1542,14 @@ def poll2(ex, st, fv, fptr, cx, cont, out_ty=None):
         if k == 'select_next':
             n = st.extra.get('nctl', 0)
             mx = ex.cfg.get('max_control_requests', 1)
-            alts = [(None, lambda s: (cont(ex, s, pending()), NOTHING)[1])]
+            def ctl_pending(s):
+                s.extra['ctl_polls'] = s.extra.get('ctl_polls', 0) + 1     # the channel was listened to in this poll
+                cont(ex, s, pending())
+                return NOTHING
+            alts = [(None, ctl_pending)]
             if n < mx:
                 def got(s, n=n):
+                    s.extra['ctl_polls'] = s.extra.get('ctl_polls', 0) + 1
                     s.extra['nctl'] = n + 1
                     req = Tree({}, 'ctl%d' % n, 'state_machine::ControlRequest')
                     s.trace.append(Event('env', 'control-request', (req,), 'ctl%d' % n))
@@ -1452,7 +1561,8 @@ def poll2(ex, st, fv, fptr, cx, cont, out_ty=None):
             name, val = fv.data[1], fv.data[2]
             key = name
             n = _pend_count(st, key)
-            pol = _pend_policy(ex, st, name, key)
+            evname = next((e.name for e in st.trace if e.out == name), name)
+            pol = _pend_policy(ex, st, evname, key)
             alts = [(None, lambda s: (cont(ex, s, ready(val)), NOTHING)[1])] if pol != 'pend' else []
             if (n < ex.cfg.get('max_pending', 1) and pol != 'fire') or pol == 'pend':
                 def pend(s):
@@ -1603,6 +1713,115 @@ def bstr_of(ex, st, v):
     raise Inconclusive('not a bounded byte string: %r' % (v,))
 
 
+def const_bytes(ex, st, v):
+    """python list of z3 byte terms of a byte-array value (literal b".." or array of scalars)"""
+    v = deref_all(ex, st, v)
+    if isinstance(v, Obj) and v.kind == 'bytes':
+        return [x.t for x in v.data]
+    if isinstance(v, Tree) and v.f and all(isinstance(k, int) for k in v.f if not isinstance(k, str)):
+        ks = sorted(k for k in v.f if isinstance(k, int))
+        if ks == list(range(len(ks))) and all(isinstance(v.f[k], Sc) for k in ks):
+            return [v.f[k].t for k in ks]
+    if isinstance(v, Obj) and v.kind == 'bstr':
+        ln = z3.simplify(v.data[0])
+        if z3.is_int_value(ln):
+            return list(v.data[1][:ln.as_long()])
+    raise Inconclusive('not a constant-length byte array: %r' % (v,))
+
+
+@pattern(r'^<impl \[u8\]>::(starts_with|ends_with)$|^core::slice::<impl \[u8\]>::(starts_with|ends_with)$')
+def m_bytes_starts_with(ex, st, args, dty, canon):
+    ln, bs = bstr_of(ex, st, args[0])
+    nd = const_bytes(ex, st, args[1])
+    k = len(nd)
+    if canon[3] == 'starts_with':
+        if k > len(bs):
+            return Sc(z3.BoolVal(False), 'bool')
+        return Sc(z3.And(ln >= k, *[bs[i] == nd[i] for i in range(k)]), 'bool')
+    # ends_with: the tail position depends on the length
+    alts = [z3.And(ln == L, *[bs[L - k + i] == nd[i] for i in range(k)]) for L in range(k, len(bs) + 1)]
+    return Sc(z3.Or(alts) if alts else z3.BoolVal(False), 'bool')
+
+
+def _pat_bytes(ex, st, pat, raw):
+    """the bytes of a str / char pattern argument (literal)"""
+    pat = deref_all(ex, st, pat)
+    if isinstance(pat, Sc) and pat.ty == 'char':
+        t = z3.simplify(pat.t)
+        if z3.is_int_value(t) and t.as_long() < 128:
+            return [z3.IntVal(t.as_long())]
+        raise Inconclusive('non-ASCII / symbolic char pattern')
+    if isinstance(pat, Sc) and z3.is_string_value(z3.simplify(pat.t)):
+        return [z3.IntVal(b) for b in z3.simplify(pat.t).as_string().encode()]
+    return const_bytes(ex, st, pat)
+
+
+@pattern(r'<impl str>::(strip_prefix|strip_suffix|starts_with|ends_with)::<(char|&str|&&str|&String)>$')
+def m_str_strip(ex, st, args, dty, canon):
+    """on a bounded byte string with a literal pattern; strip_suffix forks on the length (the tail position
+    depends on it)"""
+    ln, bs = bstr_of(ex, st, args[0])
+    pb = _pat_bytes(ex, st, args[1], canon[4])
+    k = len(pb)
+    n = len(bs)
+    op = canon[3].split('::')[0]
+    if op in ('strip_prefix', 'starts_with'):
+        hit = z3.And(ln >= k, *[bs[i] == pb[i] for i in range(k)]) if k <= n else z3.BoolVal(False)
+        if op == 'starts_with':
+            return Sc(hit, 'bool')
+        rest = Obj('bstr', (ln - k, (tuple(bs[k:]) + tuple(z3.IntVal(0) for _ in range(k)))[:n]))
+        return models.sym_enum(z3.If(hit, I(1), I(0)), {1: [rest], 0: []}, 'Option')
+    if op == 'ends_with':
+        alts_ = [z3.And(ln == L, *[bs[L - k + i] == pb[i] for i in range(k)]) for L in range(k, n + 1)]
+        return Sc(z3.Or(alts_) if alts_ else z3.BoolVal(False), 'bool')
+    alts = []
+    for L in range(n + 1):
+        if L >= k:
+            hit = z3.And(ln == L, *[bs[L - k + i] == pb[i] for i in range(k)])
+            alts.append((hit, (lambda L=L: (lambda s_: some(Obj('bstr', (z3.IntVal(L - k), tuple(bs))))))()))
+            alts.append((z3.And(ln == L, z3.Not(z3.And(*[bs[L - k + i] == pb[i] for i in range(k)])) if k else z3.BoolVal(False)), lambda s_: none()))
+        else:
+            alts.append((ln == L, lambda s_: none()))
+    raise Fork(alts)
+
+
+@pattern(r'^<\[u8\] as (std::ops::|core::ops::)?Index<(std::ops::|core::ops::)?(range::)?(RangeFrom|RangeTo|Range)<usize>>>::index$')
+def m_bytes_index_range(ex, st, args, dty, canon):
+    """sub-slice of a bounded byte string with concrete bounds; out of range panics as the real indexing does"""
+    ln, bs = bstr_of(ex, st, args[0])
+    r = deref_all(ex, st, args[1])
+    kind = re.search(r'(RangeFrom|RangeTo|Range)<usize>', canon[4]).group(1)
+    def conc(v):
+        t = z3.simplify(v.t)
+        if not z3.is_int_value(t):
+            raise Inconclusive('slice bound is symbolic')
+        return t.as_long()
+    n = len(bs)
+    if kind == 'RangeFrom':
+        a = conc(ex.child(st, r, 0, 'usize'))
+        bad = ln < a
+        new = (ln - a, tuple(bs[a:]) + tuple(z3.IntVal(0) for _ in range(min(a, n))))
+    elif kind == 'RangeTo':
+        b = conc(ex.child(st, r, 0, 'usize'))
+        bad = ln < b
+        new = (z3.IntVal(b), tuple(bs))
+    else:
+        a, b = conc(ex.child(st, r, 0, 'usize')), conc(ex.child(st, r, 1, 'usize'))
+        bad = z3.Or(ln < b, z3.BoolVal(a > b))
+        new = (z3.IntVal(max(b - a, 0)), tuple(bs[a:]) + tuple(z3.IntVal(0) for _ in range(min(a, n))))
+
+    def panic(s_):
+        s_.status = 'panic'
+        s_.info = 'slice index out of range (range %s of a slice whose length may be smaller)' % kind
+        return NOTHING
+    alts = [(z3.Not(bad), lambda s_: Obj('bstr', (new[0], new[1][:n])))]
+    if ex.check(st, [bad]) == 'sat':
+        alts.append((bad, panic))
+    if len(alts) == 1:
+        return Obj('bstr', (new[0], new[1][:n]))
+    raise Fork(alts)
+
+
 @pattern(r'<impl str>::split::<char>$')
 def m_str_split_char(ex, st, args, dty, canon):
     """fork on the length and on which positions hold the separator; pieces then have concrete extents"""
@@ -1668,6 +1887,35 @@ def m_slice_first(ex, st, args, dty, canon):
     if n == 0:
         return none()
     return some(Ptr(p.cell, p.path + ((0 if canon[3] == 'first' else n - 1),)))
+
+
+@pattern(r'^<impl \[.*\]>::(get|get_mut)::<usize>$|^core::slice::<impl \[.*\]>::(get|get_mut)::<usize>$|^Vec::<.*>::(get|get_mut)::<usize>$')
+def m_slice_get(ex, st, args, dty, canon):
+    p = as_ptr(ex, st, args[0], 'slice::get')
+    v = deref(ex, st, p)
+    if isinstance(v, Ptr):
+        p = v
+        v = deref(ex, st, p)
+    n = vec_len(ex, st, v) if not (isinstance(v, Tree) and re.match(r'^\[.*; \d+\]$', (v.ty or '').strip())) else int(re.search(r'; (\d+)\]$', v.ty.strip()).group(1))
+    idx = z3.simplify(args[1].t)
+    if z3.is_int_value(idx):
+        i = idx.as_long()
+        return some(Ptr(p.cell, p.path + (i,))) if i < n else none()
+    alts = [(args[1].t == i, (lambda i: (lambda s_: some(Ptr(p.cell, p.path + (i,)))))(i)) for i in range(n)]
+    alts.append((args[1].t >= n, lambda s_: none()))
+    raise Fork(alts)
+
+
+@pattern(r'^<impl \[.*\]>::(len|is_empty)$|^core::slice::<impl \[.*\]>::(len|is_empty)$')
+def m_slice_len(ex, st, args, dty, canon):
+    v = deref_all(ex, st, args[0])
+    if isinstance(v, Obj) and v.kind == 'bstr':
+        ln = v.data[0]
+    elif isinstance(v, Obj) and v.kind == 'bytes':
+        ln = z3.IntVal(len(v.data))
+    else:
+        ln = z3.IntVal(vec_len(ex, st, v))
+    return Sc(ln, 'usize') if canon[3] == 'len' else Sc(ln == 0, 'bool')
 
 
 @pattern(r'^(http::)?(header::)?HeaderName::as_str$')
